@@ -101,6 +101,9 @@ def run(rep, tier):
         for t in trees:
             for c in cmp_nodes(t):
                 a, b = c[2], c[3]
+                if not any(x[0] in ('arg', 'ld') for x in (ir.strip_casts(a), ir.strip_casts(b))) and not (set(ir.atoms(a)) | set(ir.atoms(b))) - set(comp) \
+                        and all(comp[x[2]] == comp[x[3]] for x in cmp_nodes(('x', a, b)) if x[2] in comp and x[3] in comp):
+                    continue        # a test of 0/1 results of comparisons (branch-free code); the comparisons inside are visited themselves
                 if a not in comp or b not in comp or comp[a] != comp[b]:
                     bad = "comparison %s relates values of different components or non-configuration values" % ir.show(c)
         if bad:
